@@ -38,6 +38,7 @@ struct in_c19 {
     uint32_t a_cp[NS][PS][NCP];
     uint8_t  has_backend;
     /* operation arguments */
+    int32_t  nslots, per_slot;               /* configuration (used when SYMCFG; else the constants NS, PS) */
     int32_t  slot, sub, channel, cc, val;
     uint32_t f, f2;                          /* float arguments, bits */
     uint8_t  learn;
@@ -45,6 +46,12 @@ struct in_c19 {
 V_INPUT(in_c19)
 
 static struct AutomationMgr M;
+/* Configuration. Default: exactly NS x PS, exact-size heap objects (any access outside traps).
+ * -DSYMCFG: nslots in 1..NS and per_slot in 1..PS are symbolic inputs - ONE obligation then covers the whole
+ * configuration space; the heap objects have the maximal size, and every obligation shows that the elements
+ * beyond nslots/per_slot are never written (reads beyond them would go unnoticed: that is what the exact-size
+ * per-configuration obligations of the thorough tier are for). */
+static int CN, CPS;
 
 /* float <-> bit pattern through a union (verif.h's memcpy versions cost CBMC ~0.1 s of symbolic execution each,
  * and this harness converts several hundred fields) */
@@ -118,7 +125,13 @@ static void c19_setup(void)
 {
     in_init();
     memset(&REC, 0, sizeof REC);
-    M.nslots = NS; M.per_slot = PS;
+#ifdef SYMCFG
+    V_ASSUME(IN.nslots >= 1 && IN.nslots <= NS && IN.per_slot >= 1 && IN.per_slot <= PS);
+    CN = IN.nslots; CPS = IN.per_slot;
+#else
+    CN = NS; CPS = PS;
+#endif
+    M.nslots = CN; M.per_slot = CPS;
     M.active_slot = IN.active_slot; M.learn_queue_len = IN.k; M.impl = 0; M.p = 0; M.instance = 0;
     M.backend = IN.has_backend ? rec_backend : 0;
     M.damaged = IN.damaged;
@@ -171,7 +184,7 @@ static void c19_snap(struct c19_q *q)
 /* the inductive invariant: LQ and UNIQ (CC and NRPN) and NRPN_RANGE */
 static bool c19_inv(const struct c19_q *q)
 {
-    return lq_inv(q->rank, NS, q->k) && lq_uniq(q->cc, NS) && lq_uniq(q->nrpn, NS)
+    return lq_inv(q->rank, CN, q->k) && lq_uniq(q->cc, CN) && lq_uniq(q->nrpn, CN)
         && lq_nrpn_reg_ok(q->reg.parhi) && lq_nrpn_reg_ok(q->reg.parlo)
         && lq_nrpn_reg_ok(q->reg.valhi) && lq_nrpn_reg_ok(q->reg.vallo);
 }
@@ -179,7 +192,7 @@ static bool c19_inv(const struct c19_q *q)
 static bool c19_same_queue(const struct c19_q *a, const struct c19_q *b)
 {
     if(a->k != b->k) return false;
-    for(int i = 0; i < NS; i++) if(a->rank[i] != b->rank[i]) return false;
+    for(int i = 0; i < NS; i++) if(a->rank[i] != b->rank[i]) return false;     /* also beyond nslots */
     return true;
 }
 static bool c19_same_bindings(const struct c19_q *a, const struct c19_q *b, int except)
@@ -203,9 +216,10 @@ static unsigned c19_msgs_of_slot(int i)
 static unsigned c19_expected_msgs(int i)
 {
     unsigned n = 0;
+    if(i < 0 || i >= CN) return 0;
     for(int j = 0; j < PS; j++) {
         char t = IN.a_type[i][j];
-        if((IN.a_used[i][j] & 1) && (t == 'i' || t == 'f' || t == 'T' || t == 'F')) n++;
+        if(j < CPS && (IN.a_used[i][j] & 1) && (t == 'i' || t == 'f' || t == 'T' || t == 'F')) n++;
     }
     return n;
 }
